@@ -80,6 +80,16 @@ func (self *Transformer) Transform(tree ast.AnalyzedProgram) ast.AnalyzedProgram
 
 	output.Types = tree.Types
 	output.Imports = tree.Imports
+	output.Singletons = tree.Singletons
+
+	for _, impl := range tree.ImplBlocks {
+		newImpl := impl
+		newImpl.Methods = make([]ast.AnalyzedFunctionDefinition, 0)
+		for _, method := range impl.Methods {
+			newImpl.Methods = append(newImpl.Methods, self.Function(method))
+		}
+		output.ImplBlocks = append(output.ImplBlocks, newImpl)
+	}
 
 	for _, glob := range tree.Globals {
 		newGlob := ast.AnalyzedLetStatement{
